@@ -446,3 +446,22 @@ def oracle(case, out, stats):
             if maxdiff(cov, exp) > 1e-8 * s:
                 bad('ls-covariance', 'computeEstimateCovariance differs from variance * A (J^T J)^-1 A^T: relative error %.3g' % (maxdiff(cov, exp) / s))
     return fails
+
+
+# ------------------------------------------------------------------ stage G: SmartRotation3D translated (DESIGN.md 2.5b)
+_SIG = '(const double &, const double &, const double &)'
+BRIDGE_SPEC = {
+    'id': 'C12',
+    'sources': ['src/transform/SmartRotation3D.cpp'],
+    'functions': [
+        {'cxx': 'SmartRotation3D::SmartRotation3D', 'sig': _SIG, 'outputs': ['R_'], 'suffix': '_R'},
+        {'cxx': 'SmartRotation3D::SmartRotation3D', 'sig': _SIG, 'outputs': ['dRdAngleX_'], 'suffix': '_dRdX'},
+        {'cxx': 'SmartRotation3D::SmartRotation3D', 'sig': _SIG, 'outputs': ['dRdAngleY_'], 'suffix': '_dRdY'},
+        {'cxx': 'SmartRotation3D::SmartRotation3D', 'sig': _SIG, 'outputs': ['dRdAngleZ_'], 'suffix': '_dRdZ'},
+    ],
+}
+
+
+def regen(ctx):
+    import bridge
+    return bridge.regen_bridge(ctx, BRIDGE_SPEC)
